@@ -147,7 +147,10 @@ errcode_t ext2fs_expand_dir(ext2_filsys fs, ext2_ino_t dir)
 errcode_t ext2fs_namei(ext2_filsys fs, ext2_ino_t root, ext2_ino_t cwd, const char *name, ext2_ino_t *inode)
 {
 	g_namei++;
-	EXPECT(root == IN.root && cwd == IN.cwd && name == g_path && g_symlinks == 0);
+	/* the directory part is the text before the last '/'; "/name" (empty directory part) means the root directory: the
+	 * parent is then looked up as "/" (not as "", which ext2fs_namei resolves to the cwd) */
+	EXPECT(root == IN.root && cwd == IN.cwd && g_symlinks == 0 &&
+	       (g_path[0] == 0 ? (name != g_path && name[0] == '/' && name[1] == 0) : name == g_path));
 	if (IN.r_namei) return IN.r_namei;
 	*inode = IN.found_parent;
 	return 0;
@@ -235,6 +238,12 @@ void h_do_symlink(void)
 		}
 	} else
 		CHECK(g_namei == 0, "no directory part: no lookup");
+	if (path[slash + 1] == 0) {
+		/* "dir/" or "": there is no name to create (an entry with an empty name is not a legal directory entry) */
+		CHECK(r != 0 && g_symlinks == 0, "an empty name is refused, nothing is created");
+		REACH("empty-name");
+		return;
+	}
 	CHECK(g_symlinks >= 1 && g_symlinks <= 2, "one attempt, at most one retry");
 	CHECK(g_sym_parent[0] == (slash >= 0 ? IN.found_parent : IN.cwd), "created in the directory found (or cwd)");
 	CHECK(g_sym_name[0] == path + (slash + 1), "named by the text after the last '/'");
